@@ -4,6 +4,7 @@ import Brax.Lemmas.C04PosRest
 import Brax.Lemmas.C04Gen
 import Brax.Lemmas.C04PosRest2
 import Brax.Lemmas.C04Init
+import Brax.Lemmas.C04Tau
 import Brax.Props.C08
 import Mathlib.Tactic.IntervalCases
 /-!
@@ -843,5 +844,131 @@ example (act : List ℝ) :
     exSysH_stackMid rfl rfl rfl (by simp [exSysH]; norm_num) (fun _ => rfl)
 
 end witness
+
+/-! ## rest case from `pipeline.init(sys, q, 0)` with actuators present: "no actuator force" as
+`to_tau = 0` (ℝ) -/
+section deepen3
+open Kin C04I
+
+/-- **`actuator.to_tau` vanishes when every actuator force does** (the system may have actuators):
+discharges `htau` of the `…_zeroTau` theorems below. -/
+theorem toTau_zero_of_zero_forces (s : Sys ℝ) (act q qd : List ℝ)
+    (h : ∀ au ∈ s.acts.zip act,
+      MC.actForce au.1 au.2 (MC.nthS q au.1.qId) (MC.nthS qd au.1.qdId) = 0) :
+    MC.toTau s act q qd = List.replicate s.nv 0 :=
+  C04T.toTau_zero_of_forces s act q qd h
+
+/-- **zero control, zero bias ⇒ zero torque.**  Every control is 0 and every actuator is a pure motor
+(`C04T.ZeroAt0`: `bias_q = bias_qd = 0`, control range and force range contain 0): `to_tau = 0` at every
+`(q, qd)`.  (The spring/positional analogue of `C04G.actForce_zero_ctrl` + `C04G.toTau_zero`.) -/
+theorem toTau_zero_of_zero_ctrl (s : Sys ℝ) (act q qd : List ℝ) (hact : ∀ u ∈ act, u = 0)
+    (hacts : ∀ a ∈ s.acts, C04T.ZeroAt0 a) : MC.toTau s act q qd = List.replicate s.nv 0 :=
+  C04T.toTau_zero_ctrl s act q qd hact hacts
+
+/-- **Newton's first law, spring pipeline, system level, actuators allowed.**
+`rest_stays_at_rest_spring_init` with `s.acts = []` replaced by the exact, weaker hypothesis that the
+actuator torque `Spring.step` evaluates vanishes: `actuator.to_tau(sys, act, q, 0) = 0` (the step calls
+`toTau s act st.q st.qd` with `(st.q, st.qd) = (q, 0)` for `st = init(q, 0)`). -/
+theorem rest_stays_at_rest_spring_init_zeroTau (inv : List (Tf ℝ) → List (Motion ℝ) → List ℝ × List ℝ)
+    (cf : List (Tf ℝ) → List (Contact ℝ)) (s : Sys ℝ) (q act : List ℝ) (h : InitOK s q)
+    (hg : s.gravity = 0)
+    (htau : MC.toTau s act q (List.replicate s.nv 0) = List.replicate s.nv 0)
+    (hcf : cf (initX s q) = [])
+    (hinv : inv ((worldToJoint s (initX s q) (initXd s q)).map (·.1))
+        ((worldToJoint s (initX s q) (initXd s q)).map (·.2.1)) = (q, List.replicate s.nv 0)) :
+    Spring.step inv cf s (Spring.init s q (List.replicate s.nv 0)) act
+      = Spring.init s q (List.replicate s.nv 0) :=
+  C04T.spring_init_rest_tau inv cf s q act h hg htau hcf hinv
+
+/-- … with `inv` the model of `kinematics.inverse` -/
+theorem rest_stays_at_rest_spring_init_inverse_zeroTau (cf : List (Tf ℝ) → List (Contact ℝ))
+    (s : Sys ℝ) (q act : List ℝ) (h : InitOK s q) (hq : q.length = s.nq) (hg : s.gravity = 0)
+    (htau : MC.toTau s act q (List.replicate s.nv 0) = List.replicate s.nv 0)
+    (hcf : cf (initX s q) = []) :
+    Spring.step (invModel s) cf s (Spring.init s q (List.replicate s.nv 0)) act
+      = Spring.init s q (List.replicate s.nv 0) :=
+  C04T.spring_init_rest_inverse_tau cf s q act h hq hg htau hcf
+
+/-- **Newton's first law, positional pipeline, system level, actuators allowed** (as
+`rest_stays_at_rest_positional_init`, `s.acts = []` replaced by `to_tau(sys, act, q, 0) = 0`) -/
+theorem rest_stays_at_rest_positional_init_zeroTau
+    (inv : List (Tf ℝ) → List (Motion ℝ) → List ℝ × List ℝ)
+    (cf : List (Tf ℝ) → List (Contact ℝ)) (s : Sys ℝ) (q act : List ℝ) (h : InitOK s q)
+    (hmid : ∀ l ∈ ins s q, StackMid l) (hg : s.gravity = 0)
+    (htau : MC.toTau s act q (List.replicate s.nv 0) = List.replicate s.nv 0)
+    (hdt : s.dt ≠ 0) (hcf : ∀ x, cf x = [])
+    (hinv : inv ((worldToJoint s (initX s q) (initXd s q)).map (·.1))
+        ((worldToJoint s (initX s q) (initXd s q)).map (·.2.1)) = (q, List.replicate s.nv 0)) :
+    Positional.step inv cf s (Positional.init s q (List.replicate s.nv 0)) act
+      = Positional.init s q (List.replicate s.nv 0) :=
+  C04T.positional_init_rest_tau inv cf s q act h hmid hg htau hdt hcf hinv
+
+/-- … with `inv` the model of `kinematics.inverse` -/
+theorem rest_stays_at_rest_positional_init_inverse_zeroTau (cf : List (Tf ℝ) → List (Contact ℝ))
+    (s : Sys ℝ) (q act : List ℝ) (h : InitOK s q) (hmid : ∀ l ∈ ins s q, StackMid l)
+    (hq : q.length = s.nq) (hg : s.gravity = 0)
+    (htau : MC.toTau s act q (List.replicate s.nv 0) = List.replicate s.nv 0)
+    (hdt : s.dt ≠ 0) (hcf : ∀ x, cf x = []) :
+    Positional.step (invModel s) cf s (Positional.init s q (List.replicate s.nv 0)) act
+      = Positional.init s q (List.replicate s.nv 0) :=
+  C04T.positional_init_rest_inverse_tau cf s q act h hmid hq hg htau hdt hcf
+
+/-- the `acts = []` theorems are the special case -/
+example (s : Sys ℝ) (act q : List ℝ) (h : s.acts = []) :
+    MC.toTau s act q (List.replicate s.nv 0) = List.replicate s.nv 0 :=
+  C04T.toTau_zero_of_noacts s act q _ h
+
+/-! ### non-vacuity: a system that HAS actuators -/
+
+/-- a motor on the first stacked hinge (`q_id = 7`, `qd_id = 6`): gain 100, gear 2, control range
+`[-1, 1]`, force range `[-50, 50]`, no bias -/
+noncomputable def exMotor : ActP ℝ :=
+  { qId := 7, qdId := 6, ctrlLo := some (-1), ctrlHi := some 1, forceLo := some (-50),
+    forceHi := some 50, gain := 100, gear := 2, biasQ := 0, biasQd := 0 }
+
+/-- `exSysH` with two actuators: the motor above and an unclipped one on the second hinge -/
+noncomputable def exMotor2 : ActP ℝ :=
+  { qId := 8, qdId := 7, ctrlLo := none, ctrlHi := none, forceLo := none, forceHi := none,
+    gain := 100, gear := 2, biasQ := 0, biasQd := 0 }
+
+noncomputable def exSysA : Sys ℝ := { exSysH with acts := [exMotor, exMotor2] }
+
+theorem exSysA_initOK : C04I.InitOK exSysA exQH := by
+  refine ⟨C04I.TreeOK.of_WF exSysA (by decide) exSysH_initOK.tree.hlk, ?_⟩
+  intro l hl
+  exact exSysH_initOK.kind l hl
+
+theorem exSysA_zeroAt0 : ∀ a ∈ exSysA.acts, C04T.ZeroAt0 a := by
+  intro a ha
+  simp only [exSysA, List.mem_cons, List.not_mem_nil, or_false] at ha
+  rcases ha with rfl | rfl
+  · refine ⟨rfl, rfl, ?_, ?_, ?_, ?_⟩ <;> intro x hx <;> simp [exMotor] at hx <;> rw [← hx] <;> norm_num
+  · refine ⟨rfl, rfl, ?_, ?_, ?_, ?_⟩ <;> intro x hx <;> simp [exMotor2] at hx
+
+/-- the system really has actuators, and they really act: control `1` on the motor gives the torque
+`clip(100·1, -50, 50)·2 = 100` at dof 6 -/
+example : exSysA.acts.length = 2 := rfl
+example : MC.actForce exMotor 1 (1 / 2) 0 = 100 := by
+  simp [MC.actForce, MC.clipO, exMotor]; norm_num
+
+/-- all hypotheses of `rest_stays_at_rest_spring_init_inverse_zeroTau` hold together on a system with
+two actuators under zero control -/
+example :
+    Spring.step (C04I.invModel exSysA) (fun _ => []) exSysA
+        (Spring.init exSysA exQH (List.replicate exSysA.nv 0)) [0, 0]
+      = Spring.init exSysA exQH (List.replicate exSysA.nv 0) :=
+  rest_stays_at_rest_spring_init_inverse_zeroTau (fun _ => []) exSysA exQH [0, 0] exSysA_initOK rfl rfl
+    (toTau_zero_of_zero_ctrl exSysA _ _ _ (by simp) exSysA_zeroAt0) rfl
+
+/-- … and of `rest_stays_at_rest_positional_init_inverse_zeroTau` -/
+example :
+    Positional.step (C04I.invModel exSysA) (fun _ => []) exSysA
+        (Positional.init exSysA exQH (List.replicate exSysA.nv 0)) [0, 0]
+      = Positional.init exSysA exQH (List.replicate exSysA.nv 0) :=
+  rest_stays_at_rest_positional_init_inverse_zeroTau (fun _ => []) exSysA exQH [0, 0] exSysA_initOK
+    exSysH_stackMid rfl rfl (toTau_zero_of_zero_ctrl exSysA _ _ _ (by simp) exSysA_zeroAt0)
+    (by simp [exSysA, exSysH]; norm_num) (fun _ => rfl)
+
+end deepen3
 
 end Brax.C04
